@@ -26,6 +26,10 @@ func runC07(c *rt.C) {
 		c.Evals(1)
 		return
 	}
+	if c.Index%16 == 10 || c.Index%16 == 11 {
+		c07FailedRestore(c, mem)
+		return
+	}
 	if c.Index%16 >= 12 {
 		closeDuringBackup(c, mem)
 		c.Evals(1)
@@ -154,6 +158,70 @@ func c07Restore(c *rt.C, mem string) {
 	c.Sig("restore/delta=%v/n=%s/mem=%s/writer-before-load=%v", delta, sizeClass(len(target.Want)), mem, early != nil)
 	c.Sample(witness)
 	_ = nitro.DiskBlockSize
+}
+
+// c07FailedRestore: a history whose LoadFromDisk fails (or succeeds) on a damaged backup is a
+// history too: the source instance is closed first, so the allocator's live set is empty; then
+// for each of a sample of damaged copies of the backup (the fault classes of C11) a fresh
+// instance loads it and is closed. After every such Close() the live set must be empty again
+// and no block may have been released twice.
+func c07FailedRestore(c *rt.C, mem string) {
+	r := c.Rng
+	delta := (c.Index/16)%2 == 0
+	nk := pick(r, 3, 10, 40)
+	dir := filepath.Join(c.Tmp, "bk")
+	b := makeBackup(c, r, mem, delta, nk, dir)
+	if b == nil {
+		return
+	}
+	b.db.N.Close()
+	a := b.db.A
+	witness := map[string]interface{}{"mem": mem, "delta": delta, "keys": nk, "items_stored": len(b.want), "files": fileSummary(b)}
+	reportAlloc(c, a, witness, "after closing the source instance of the backup")
+	if c.Failed() {
+		return
+	}
+	old := nitro.DiskBlockSize
+	nitro.DiskBlockSize = 4096
+	defer func() { nitro.DiskBlockSize = old }()
+	faults, _ := b.singleFaults(r, 60)
+	faults = append(faults, b.multiFaults(r, 2)...)
+	// undamaged first: the successful restore is the control
+	faults = append([]fault{{Op: "none", Class: "undamaged"}}, faults...)
+	msb := b.lengthMSBOffsets()
+	for _, f := range faults {
+		if (f.Op == "flip" || f.Op == "set") && msb[f.File][f.Off] {
+			continue // huge length headers: gigabyte allocations, covered (for termination) by C11
+		}
+		undo := b.apply(f)
+		fresh := b.db.Fresh()
+		res, stuck, inc := loadWithProbe(fresh, dir, pick(r, 1, 2, 8))
+		undo()
+		if inc || stuck || res.pan != nil {
+			c.Inconclusive(fmt.Sprintf("restore of the damaged backup (%s) did not return (stuck=%v panic=%v): C11's subject", f, stuck, res.pan))
+			return
+		}
+		outcome := "error"
+		if res.err == nil {
+			outcome = "loaded"
+			res.snap.Close()
+		}
+		fresh.N.Close()
+		c.Evals(1)
+		c.Sig("failed-restore/%s/%s/%s/delta=%v/mem=%s", f.Class, f.Op, outcome, delta, mem)
+		w := map[string]interface{}{"mem": mem, "delta": delta, "keys": nk, "fault": f.String(), "load_result": fmt.Sprint(res.err), "files": fileSummary(b)}
+		a.CheckQuarantine()
+		for _, v := range a.Violations() {
+			c.Violate("alloc-"+v.Kind, fmt.Sprintf("restore of a damaged backup (%s; LoadFromDisk returned %v), then Close(): %s of block %s (%d bytes): %s alloc=[%s] free=[%s] second=[%s]", f, res.err, v.Kind, v.Addr, v.Size, v.Detail, v.Alloc, v.Free, v.Second), w)
+		}
+		if n := a.LiveCount(); n != 0 {
+			c.Violate("leak-after-failed-restore", fmt.Sprintf("restore of a damaged backup (%s; LoadFromDisk returned %v), then Close(): %d blocks were never returned to the allocator; first: %+v", f, res.err, n, a.Leaks(3)), w)
+		}
+		if c.Failed() {
+			return
+		}
+	}
+	c.Sample(witness)
 }
 
 // nodeListLifecycle: user-managed memory; nodes returned by Put2 are chained in the library's own
